@@ -174,6 +174,8 @@ def Genotype.toStringL (g : Genotype) : Option (List Nat) :=
     ((List.range g.getPloidy).drop 1).map (fun i => g.getPosition (g.getPloidy - i - 1)))
 
 def getMaxGenotypePloidy : Nat := MAX_PLOIDY
+/-- after `fixes/F55.patch`: the largest ploidy the vector constructor accepts -/
+def getMaxGenotypePloidyRepaired : Nat := MAX_PLOIDY - 1
 def getMaxGenotypeAlleles : Nat := MAX_ALLELES
 
 end WhVerif.C19
